@@ -13,6 +13,8 @@ use vcore::report::Report;
 trait Same { fn same(&self, o: &Self) -> bool; }
 macro_rules! same_eq { ($($t:ty),*) => { $(impl Same for $t { fn same(&self, o: &Self) -> bool { self == o } })* } }
 same_eq!(i8, i16, i32, i64, u8, u16, u32, u64, bool, char, String, ());
+same_eq!(std::net::IpAddr, std::net::Ipv4Addr, std::net::Ipv6Addr, std::net::SocketAddr, std::net::SocketAddrV4, std::net::SocketAddrV6, std::time::Duration, std::time::SystemTime,
+    std::path::PathBuf, std::num::Wrapping<i64>, std::num::NonZeroU64, std::ops::Range<i64>, std::ops::RangeInclusive<u8>, Box<str>, Result<i32, String>, std::collections::BTreeSet<String>, [u16; 4]);
 impl Same for f32 { fn same(&self, o: &Self) -> bool { self.to_bits() == o.to_bits() } }
 impl Same for f64 { fn same(&self, o: &Self) -> bool { self.to_bits() == o.to_bits() } }
 impl<T: Same> Same for Option<T> { fn same(&self, o: &Self) -> bool { match (self, o) { (Some(a), Some(b)) => a.same(b), (None, None) => true, _ => false } } }
@@ -130,6 +132,14 @@ fn check_dist_header<T: Serialize + DeserializeOwned + Debug + Same>(rep: &Repor
     let ctl = erltf::OwnedTerm::Tuple(vec![erltf::OwnedTerm::Integer(2), erltf::OwnedTerm::atom(""), t.clone()]);
     let framed = erltf::encode_with_dist_header_multi(&[&ctl, &t]);
     let Ok(bytes) = framed else { return }; // too many atoms for one header: a refusal, judged elsewhere
+    // once with a cache of its own, once with the cache that has seen every earlier frame of this thread (a connection's
+    // cache lives as long as the connection: later frames overwrite the slots earlier ones announced)
+    thread_local! { static SHARED: std::cell::RefCell<erltf::AtomCache> = std::cell::RefCell::new(erltf::AtomCache::new()); }
+    let shared = SHARED.with(|c| { let mut c = c.borrow_mut(); erltf::decode_with_atom_cache(&bytes, &mut c) });
+    match &shared {
+        Ok((_, Some(p))) if from_term::<T>(p).map(|b| b.same(v)).unwrap_or(false) => {}
+        other => rep.violation("value does not survive a distribution-header frame read with the cache earlier frames went through", json!({"type": ty, "value": format!("{:?}", v).chars().take(120).collect::<String>(), "result": format!("{:?}", other.as_ref().map(|(_, p)| p.as_ref().map(|p| format!("{:?}", p).chars().take(80).collect::<String>()))).chars().take(200).collect::<String>()})),
+    }
     let mut cache = erltf::AtomCache::new();
     match erltf::decode_with_atom_cache(&bytes, &mut cache) {
         Ok((c, Some(p))) => {
@@ -371,6 +381,50 @@ fn main() {
     rep.sample(json!({"type": "char", "values": if thorough { "all 1 112 064 scalar values" } else { "all below U+0800 and every plane boundary" }}));
     let shapes = derived_struct_shapes(rep);
     rep.set_extra("derived_struct_shapes", shapes);
+    // standard-library types whose serde form depends on Serializer::is_human_readable (both sides must agree on it)
+    {
+        use std::net::{IpAddr, Ipv4Addr, Ipv6Addr, SocketAddr, SocketAddrV4, SocketAddrV6};
+        let v4s = [Ipv4Addr::new(0, 0, 0, 0), Ipv4Addr::new(127, 0, 0, 1), Ipv4Addr::new(255, 255, 255, 255), Ipv4Addr::new(10, 1, 200, 3)];
+        let v6s = [Ipv6Addr::UNSPECIFIED, Ipv6Addr::LOCALHOST, Ipv6Addr::new(0x2001, 0xdb8, 0, 0, 0, 0xffff, 0, 1), Ipv6Addr::new(0xffff, 0xffff, 0xffff, 0xffff, 0xffff, 0xffff, 0xffff, 0xffff)];
+        for a in v4s { check(&rep, "Ipv4Addr", &a); check(&rep, "IpAddr", &IpAddr::V4(a)); for port in [0u16, 80, 65535] { check(&rep, "SocketAddrV4", &SocketAddrV4::new(a, port)); check(&rep, "SocketAddr", &SocketAddr::new(IpAddr::V4(a), port)); } check(&rep, "Option<IpAddr>", &Some(IpAddr::V4(a))); check(&rep, "Vec<Ipv4Addr>", &vec![a, a]); }
+        for a in v6s { check(&rep, "Ipv6Addr", &a); check(&rep, "IpAddr", &IpAddr::V6(a)); for port in [0u16, 443, 65535] { check(&rep, "SocketAddrV6", &SocketAddrV6::new(a, port, 0, 0)); check(&rep, "SocketAddr", &SocketAddr::new(IpAddr::V6(a), port)); } check(&rep, "(u8, IpAddr)", &(1u8, IpAddr::V6(a))); }
+        for d in [std::time::Duration::ZERO, std::time::Duration::new(1, 999_999_999), std::time::Duration::new(u64::MAX, 0), std::time::Duration::from_millis(1500)] { check(&rep, "Duration", &d); }
+        check(&rep, "SystemTime", &(std::time::UNIX_EPOCH + std::time::Duration::new(1_700_000_000, 5)));
+        check(&rep, "PathBuf", &std::path::PathBuf::from("/tmp/é/x.txt"));
+        check(&rep, "Wrapping<i64>", &std::num::Wrapping(i64::MIN));
+        check(&rep, "NonZeroU64", &std::num::NonZeroU64::new(u64::MAX).unwrap());
+        check(&rep, "Range<i64>", &(i64::MIN..i64::MAX)); check(&rep, "RangeInclusive<u8>", &(0u8..=255));
+        check(&rep, "Box<str>/Rc-like", &Box::<str>::from("boxed"));
+        check(&rep, "Result<i32,String>", &Ok::<i32, String>(-5)); check(&rep, "Result<i32,String>", &Err::<i32, String>("e".into()));
+        check(&rep, "BTreeSet<String>", &std::collections::BTreeSet::from(["a".to_string(), "é".to_string()]));
+        check(&rep, "[u16; 4]", &[0u16, 1, 65535, 256]);
+    }
+    // the byte round trip must not depend on what the thread was asked to SERIALISE (and was refused) before
+    {
+        let too_long = "a".repeat(70_000);
+        let canary = Plain { id: 1 << 40, name: "n".into(), ratio: 0.5, flag: true, tags: vec![1, 65535], opt: Some(7) };
+        for kind in 0..4usize {
+            let (too_long, canary) = (too_long.clone(), canary.clone());
+            let ok = std::thread::spawn(move || {
+                for _ in 0..3 {
+                    let refused = match kind {
+                        0 => to_bytes(&(7u8, "payload", erltf_serde::elixir::AtomValue(&too_long))).is_err(),
+                        1 => to_bytes(&vec![(1u8, erltf_serde::elixir::AtomValue(&too_long))]).is_err(),
+                        2 => to_bytes(&(HashMap::from([("k".to_string(), 1u8)]), erltf_serde::elixir::AtomValue(&too_long))).is_err(),
+                        _ => to_bytes(&i128::MAX).is_err() | to_bytes(&(1u8, u128::MAX)).is_err(),
+                    };
+                    if !refused { return (false, "the unencodable value was accepted".to_string()); }
+                }
+                let a = to_bytes(&canary).ok().and_then(|b| from_bytes::<Plain>(&b).ok()).map(|x| x.same(&canary)).unwrap_or(false);
+                let b = to_bytes(&42u8).ok().and_then(|b| from_bytes::<u8>(&b).ok()) == Some(42);
+                let c = to_term(&canary).ok().and_then(|t| erltf::encode(&t).ok()).and_then(|b| from_bytes::<Plain>(&b).ok()).map(|x| x.same(&canary)).unwrap_or(false);
+                (a && b && c, format!("struct {} / u8 {} / via term {}", a, b, c))
+            }).join().unwrap_or((false, "thread panicked".into()));
+            rep.add("evaluations", 6);
+            let kind_name = ["tuple with an over-long atom", "list of tuples with an over-long atom", "map and an over-long atom", "128-bit integers"][kind];
+            if !ok.0 { rep.violation("byte round trip of a value fails after the thread was refused the serialisation of another value", json!({"refused_value_kind": kind_name, "round_trips": ok.1})); }
+        }
+    }
     // the byte round trip must not depend on what the thread was asked to deserialise (and rejected) before
     {
         let nest = |pre: &[u8], d: usize| { let mut v = vec![131u8]; for _ in 0..d { v.extend_from_slice(pre); } v.extend_from_slice(&[97, 1]); v };
